@@ -7,6 +7,7 @@
 import GM.Proof.QuoteSimTree
 import GM.Proof.QuoteSimLeafA
 import GM.Proof.QuoteSimInv
+import GM.Proof.QuoteSimInvK
 
 namespace GM.Blocks
 open GM GM.Text GM.Spec GM.Proof.Reader
@@ -23,10 +24,13 @@ structure AInv (al : BP → Bool) (pc : Ctx) (nodes : List Node) : Prop where
   fence : ∀ f, pc.fence = some f → 0 ≤ f.indent
   /-- the store invariant of GM.Proof.QuoteSimInv: the Document has no lines, no List / ListItem node, node 0 is nobody's child -/
   u : UStore nodes
+  /-- parser/kind consistency of the open blocks (GM.Proof.QuoteSimInvK) -/
+  pk : PKL pc.opened nodes
 
-/-- every position the reader can take inside a line has a rest of the line in front of it, with a byte that is not
-    a space (true when the source ends with `\n`: then every line does, and a position inside a line is before its `\n`) -/
-def NS (src : Bytes) : Prop := ∀ k ls p, InL src k ls p → p < src.length ∧ ∃ c ∈ (viewA src ls p).getD [], c ≠ 32
+/-- every position inside a line that has a rest of the line in front of it has one with a byte that is not a space
+    (true when the source ends with `\n` or, more generally, does not end with a space: the last byte of the line is
+    such a byte). Needed by `fencedCodeBlockParser.Continue` only. -/
+def NS (src : Bytes) : Prop := ∀ k ls p, InL src k ls p → p < src.length → ∃ c ∈ (viewA src ls p).getD [], c ≠ 32
 
 /-- the parsers in `al` are simulated. Continue / Close are only ever called on a node that is not the Document,
     in a context satisfying `AInv`; Continue only when there is a current line. -/
@@ -37,6 +41,7 @@ structure PS (src : Bytes) (al : BP → Bool) : Prop where
     S2 (fun a b sA' sB' => b = a ∧ ∃ p', SR src k ls p' sA' sB')
       (bpContinue bp node sA) (bpContinue bp (node + 1) sB)
   close : ∀ bp, al bp = true → ∀ k ls p node sA sB, SR src k ls p sA sB → node ≠ 0 → AInv al sA.pc sA.nodes →
+    ((bp = .paragraph ∨ bp = .setext) → rawK (sA.nodes.getD node default).kind = false) →
     S2 (fun _ _ sA' sB' => SR src k ls p sA' sB') (bpClose bp node sA) (bpClose bp (node + 1) sB)
 
 /-- unary facts about run A: the parsers keep `AInv`; `RequireParagraph` is only answered when there is a last
@@ -47,6 +52,11 @@ structure Frames (al : BP → Bool) : Prop where
     AInv al s'.pc s'.nodes
   close : ∀ bp node s a s', bpClose bp node s = .ok (a, s') → al bp = true → node ≠ 0 → AInv al s.pc s.nodes →
     AInv al s'.pc s'.nodes
+  openKG : ∀ bp parent s a s', bpOpen bp parent s = .ok (a, s') → al bp = true → KGn s.nodes s'.nodes
+  contKG : ∀ bp node s a s', bpContinue bp node s = .ok (a, s') → al bp = true → KGn s.nodes s'.nodes
+  closeKG : ∀ bp node s a s', bpClose bp node s = .ok (a, s') → al bp = true → KGn s.nodes s'.nodes
+  openNR : ∀ bp parent s (a : Option Nat × PState) s' id, bpOpen bp parent s = .ok (a, s') → a.1 = some id →
+    al bp = true → NRn bp id s'.nodes
   req : ∀ bp parent s (a : Option Nat × PState) s', bpOpen bp parent s = .ok (a, s') → a.2.requirePara = true →
     s.pc.opened.getLast? ≠ none
   nonePos : ∀ bp parent s (a : Option Nat × PState) s', bpOpen bp parent s = .ok (a, s') → a.1 = none →
@@ -64,6 +74,11 @@ structure OT (src : Bytes) : Prop where
     bpOpen .paragraph q sA = .ok (a, sA') → a.1 ≠ none
   code : ∀ k ls p q sA sB (a : Option Nat × PState) sA' (lo : Int), SR src k ls p sA sB → NBV src ls p →
     3 < (indentWidthI ((viewA src ls p).getD []) lo).1 → bpOpen .code q sA = .ok (a, sA') → a.1 ≠ none
+  /-- the two list parsers may be TRIED on sources in which no position starts a list item: their `Open` is simulated … -/
+  lsim : ∀ bp, bp.notList = false → OpenSim src bp
+  /-- … and declines without touching the node store (no list item at the reader's position; no List node to put an item in) -/
+  ldecl : ∀ bp, bp.notList = false → ∀ k ls p q sA sB (a : Option Nat × PState) sA', SR src k ls p sA sB →
+    UStore sA.nodes → bpOpen bp q sA = .ok (a, sA') → a.1 = none ∧ sA'.nodes = sA.nodes
 
 /-- what run A's `tryParsers` answers: the result it was given or `newBlocksOpened`; and `newBlocksOpened` when it was
     given `noBlocksOpened` on a rest of line that is not blank, the last opened block is no paragraph, and the candidate
@@ -72,6 +87,22 @@ def TPU (src : Bytes) (ls p : Nat) (cont : Bool) (w : Int) (bps : List BP) (resu
   (r = result ∨ r = .newBlocksOpened) ∧
   (cont = false → result = .noBlocksOpened → NBV src ls p → (w ≤ 3 → BP.paragraph ∈ bps) →
     (3 < w → BP.code ∈ bps ∧ ∃ lo : Int, w = (indentWidthI ((viewA src ls p).getD []) lo).1) → r = .newBlocksOpened)
+
+/-- the link between `continuable` and the last-block variable of openBlocks in run A: while nothing has been opened and
+    the last opened block was a paragraph, the variable IS the last opened block, and its parser is the paragraph parser
+    (so `toContinuable` calls `paragraphParser.Continue`, also at the end of the source) -/
+def HC (cont : Bool) (result : OpenResult) (lb : Option Block) (s : St) : Prop :=
+  cont = true → result = .noBlocksOpened → lb = s.pc.opened.getLast? ∧ ∀ x, lb = some x → x.bp = .paragraph
+
+theorem HC.of_new {cont : Bool} {r : OpenResult} {lb : Option Block} {s : St} (h : r = .newBlocksOpened) : HC cont r lb s :=
+  fun _ hr => by rw [h] at hr; cases hr
+
+theorem HC.congr {cont : Bool} {r : OpenResult} {lb : Option Block} {s s' : St} (h : HC cont r lb s)
+    (ho : s'.pc.opened = s.pc.opened) : HC cont r lb s' :=
+  fun hc hr => by rw [ho]; exact h hc hr
+
+theorem bp_kind_paragraph {bp : BP} (h : bp.kind = .paragraph) : bp = .paragraph := by
+  cases bp <;> simp [BP.kind] at h ⊢
 
 theorem int_beq_congr {x y x' y' : Int} (h : x = y ↔ x' = y') : (x == y) = (x' == y') := by
   by_cases h1 : x = y
@@ -169,14 +200,14 @@ theorem blockAt_q (l : List Block) (i : Int) (b : Block) (h : blockAt l i = .ok 
       exact ⟨trivial, List.mem_of_getElem? hg, by omega⟩
 
 theorem closeLoop_sim {src al} (ps : PS src al) (fr : Frames al) (l : List Block) (hl : OKB al l) (to : Int) :
-    ∀ (n : Nat) {k ls p} {sA sB : St}, SR src k ls p sA sB → AInv al sA.pc sA.nodes →
-      S2 (fun _ _ sA' sB' => SR src k ls p sA' sB' ∧ AInv al sA'.pc sA'.nodes)
+    ∀ (n : Nat) {k ls p} {sA sB : St}, SR src k ls p sA sB → AInv al sA.pc sA.nodes → PKL l sA.nodes →
+      S2 (fun _ _ sA' sB' => SR src k ls p sA' sB' ∧ AInv al sA'.pc sA'.nodes ∧ KGn sA.nodes sA'.nodes)
         (closeLoop l to n sA) (closeLoop (bqBlock :: l.map shB) (to + 1) n sB) := by
   intro n
   induction n with
-  | zero => intro k ls p sA sB h ha; unfold closeLoop; exact S2.pure ⟨h, ha⟩
+  | zero => intro k ls p sA sB h ha _; unfold closeLoop; exact S2.pure ⟨h, ha, KGn.refl _⟩
   | succ n ih =>
-    intro k ls p sA sB h ha
+    intro k ls p sA sB h ha hpk
     unfold closeLoop
     refine S2.bind (P := fun a b sA' sB' => b = shB a ∧ a ∈ l ∧ sA' = sA ∧ sB' = sB) (S2.liftE (fun a ha => ?_))
       (fun a b sA1 sB1 hq => ?_)
@@ -199,10 +230,12 @@ theorem closeLoop_sim {src al} (ps : PS src al) (fr : Frames al) (l : List Block
       rw [hsome]
       by_cases hs : x.parent.isSome = true
       · rw [if_pos hs, if_pos hs]
-        refine S2.bind (S2.andL (ps.close a.bp hal k ls p a.node sA sB h hn0 ha)
-          (F := fun _ sA' => AInv al sA'.pc sA'.nodes) (fun _ sA' e => fr.close _ _ _ _ _ e hal hn0 ha))
-          (fun _ _ sA3 sB3 h3 => ih h3.1 h3.2)
-      · rw [if_neg hs, if_neg hs]; exact ih h ha
+        refine S2.bind (S2.andL (ps.close a.bp hal k ls p a.node sA sB h hn0 ha (fun hbp => hpk.nr hm hbp))
+          (F := fun _ sA' => AInv al sA'.pc sA'.nodes ∧ KGn sA.nodes sA'.nodes)
+          (fun _ sA' e => ⟨fr.close _ _ _ _ _ e hal hn0 ha, fr.closeKG _ _ _ _ _ e hal⟩))
+          (fun _ _ sA3 sB3 h3 => S2.mono (ih h3.1 h3.2.1 (hpk.kg h3.2.2))
+            (fun _ _ _ _ hh => ⟨hh.1, hh.2.1, h3.2.2.trans hh.2.2⟩))
+      · rw [if_neg hs, if_neg hs]; exact ih h ha hpk
 
 theorem slice'_q (l : List Block) (a b : Int) (x : List Block) (h : closeBlocks.slice' l a b = .ok x) (ha : a = 0) :
     closeBlocks.slice' (bqBlock :: l.map shB) 0 (b + 1) = .ok (bqBlock :: x.map shB) ∧ (∀ y ∈ x, y ∈ l) := by
@@ -236,21 +269,21 @@ structure DR (src : Bytes) (al : BP → Bool) (k ls p : Nat) (sA sB : St) : Prop
   a : AInv al sA.pc sA.nodes
 
 theorem closeBlocks_tail {src al} {k ls p} {sA0 : St} {sA sB : St} (h3 : SR src k ls p sA sB) (ha : AInv al sA.pc sA.nodes)
-    (x : List Block) (hm : ∀ z ∈ x, z ∈ sA0.pc.opened) (hok : OKB al sA0.pc.opened) :
-    S2 (fun _ _ sA' sB' => DR src al k ls p sA' sB')
+    (x : List Block) (hm : ∀ z ∈ x, z ∈ sA0.pc.opened) (hok : OKB al sA0.pc.opened) (hpk0 : PKL sA0.pc.opened sA.nodes) :
+    S2 (fun _ _ sA' sB' => DR src al k ls p sA' sB' ∧ sA'.nodes = sA.nodes)
       ((modPc fun pc => { pc with opened := x }) sA) ((modPc fun pc => { pc with opened := bqBlock :: x.map shB }) sB) := by
   refine S2.mono (S2.andL (modPc_s2 h3 _ _ (fun a b hab => ?_))
     (F := fun _ sA' => sA' = { sA with pc := { sA.pc with opened := x } })
     (fun a sA' e => ?_)) (fun _ _ sA' sB' hh => ?_)
   · exact { hab with opened := rfl }
   · unfold modPc at e; cases e; rfl
-  · refine ⟨hh.1, ?_⟩
-    rw [hh.2]
-    exact ⟨fun z hz => hok z (hm z hz), ha.tmp, ha.fence, ha.u⟩
+  · rw [hh.2]
+    exact ⟨⟨by rw [← hh.2]; exact hh.1, fun z hz => hok z (hm z hz), ha.tmp, ha.fence, ha.u, hpk0.sub hm⟩, rfl⟩
 
 theorem closeBlocks_sim {src al} (ps : PS src al) (fr : Frames al) {k ls p} {sA sB : St} (h : DR src al k ls p sA sB)
     (frm to : Int) :
-    S2 (fun _ _ sA' sB' => DR src al k ls p sA' sB') (closeBlocks frm to sA) (closeBlocks (frm + 1) (to + 1) sB) := by
+    S2 (fun _ _ sA' sB' => DR src al k ls p sA' sB' ∧ KGn sA.nodes sA'.nodes)
+      (closeBlocks frm to sA) (closeBlocks (frm + 1) (to + 1) sB) := by
   unfold closeBlocks
   refine S2.bind (getPc_s2 h.s) (fun a b sA1 sB1 hq => ?_)
   obtain ⟨ha, hb, hc, e1, e2⟩ := hq
@@ -259,8 +292,8 @@ theorem closeBlocks_sim {src al} (ps : PS src al) (fr : Frames al) {k ls p} {sA 
   simp only
   rw [hc.opened]
   rw [show frm + 1 - (to + 1) + 1 = frm - to + 1 by omega]
-  refine S2.bind (closeLoop_sim ps fr sA.pc.opened h.a.opened to _ h.s h.a) (fun _ _ sA2 sB2 hq => ?_)
-  obtain ⟨h2, ha2⟩ := hq
+  refine S2.bind (closeLoop_sim ps fr sA.pc.opened h.a.opened to _ h.s h.a h.a.pk) (fun _ _ sA2 sB2 hq => ?_)
+  obtain ⟨h2, ha2, hkg2⟩ := hq
   have e0 : (((bqBlock :: sA.pc.opened.map shB).length : Nat) : Int) = (sA.pc.opened.length : Int) + 1 := by
     simp only [List.length_cons, List.length_map]; omega
   rw [e0]
@@ -270,34 +303,34 @@ theorem closeBlocks_sim {src al} (ps : PS src al) (fr : Frames al) {k ls p} {sA 
   by_cases hf : (frm == (sA.pc.opened.length : Int) - 1) = true
   · rw [if_pos hf, if_pos hf]
     refine S2.bind (P := fun x y sA' sB' => y = bqBlock :: x.map shB ∧ (∀ z ∈ x, z ∈ sA.pc.opened) ∧
-      SR src k ls p sA' sB' ∧ AInv al sA'.pc sA'.nodes) (S2.liftE (fun x hx => ?_)) (fun x y sA3 sB3 hq => ?_)
+      SR src k ls p sA' sB' ∧ AInv al sA'.pc sA'.nodes ∧ KGn sA.nodes sA'.nodes) (S2.liftE (fun x hx => ?_)) (fun x y sA3 sB3 hq => ?_)
     · obtain ⟨e, hm⟩ := slice'_q _ _ _ x hx rfl
-      exact ⟨_, e, rfl, hm, h2, ha2⟩
-    · obtain ⟨hy, hm, h3, ha3⟩ := hq
+      exact ⟨_, e, rfl, hm, h2, ha2, hkg2⟩
+    · obtain ⟨hy, hm, h3, ha3, hkg3⟩ := hq
       subst hy
-      exact closeBlocks_tail h3 ha3 x hm h.a.opened
+      exact S2.mono (closeBlocks_tail h3 ha3 x hm h.a.opened (h.a.pk.kg hkg3)) (fun _ _ _ _ hh => ⟨hh.1, by rw [hh.2]; exact hkg3⟩)
   · rw [if_neg hf, if_neg hf]
     refine S2.bind (P := fun x y sA' sB' => y = bqBlock :: x.map shB ∧ (∀ z ∈ x, z ∈ sA.pc.opened) ∧
-        SR src k ls p sA' sB' ∧ AInv al sA'.pc sA'.nodes) (S2.liftE (fun x hx => ?_)) (fun x y sA3 sB3 hq => ?_)
+        SR src k ls p sA' sB' ∧ AInv al sA'.pc sA'.nodes ∧ KGn sA.nodes sA'.nodes) (S2.liftE (fun x hx => ?_)) (fun x y sA3 sB3 hq => ?_)
     · obtain ⟨e, hm⟩ := slice'_q _ _ _ x hx rfl
-      exact ⟨_, e, rfl, hm, h2, ha2⟩
-    · obtain ⟨hy, hm, h3, ha3⟩ := hq
+      exact ⟨_, e, rfl, hm, h2, ha2, hkg2⟩
+    · obtain ⟨hy, hm, h3, ha3, hkg3⟩ := hq
       subst hy
       refine S2.bind (P := fun x' y' sA' sB' => y' = x'.map shB ∧ (∀ z ∈ x', z ∈ sA.pc.opened) ∧
-          SR src k ls p sA' sB' ∧ AInv al sA'.pc sA'.nodes) (S2.liftE (fun x' hx' => ?_)) (fun x' y' sA4 sB4 hq => ?_)
+          SR src k ls p sA' sB' ∧ AInv al sA'.pc sA'.nodes ∧ KGn sA.nodes sA'.nodes) (S2.liftE (fun x' hx' => ?_)) (fun x' y' sA4 sB4 hq => ?_)
       · rw [show frm + 1 + 1 = (frm + 1) + 1 by rfl]
         obtain ⟨e, hm'⟩ := slice'_q2 _ _ _ x' hx'
-        exact ⟨_, e, rfl, hm', h3, ha3⟩
-      · obtain ⟨hy', hm', h4, ha4⟩ := hq
+        exact ⟨_, e, rfl, hm', h3, ha3, hkg3⟩
+      · obtain ⟨hy', hm', h4, ha4, hkg4⟩ := hq
         subst hy'
         refine S2.bind (P := fun x'' y'' sA' sB' => y'' = bqBlock :: x''.map shB ∧ (∀ z ∈ x'', z ∈ sA.pc.opened) ∧
-          SR src k ls p sA' sB' ∧ AInv al sA'.pc sA'.nodes) (S2.pure ⟨by simp, fun z hz => ?_, h4, ha4⟩) (fun x'' y'' sA5 sB5 hq => ?_)
+          SR src k ls p sA' sB' ∧ AInv al sA'.pc sA'.nodes ∧ KGn sA.nodes sA'.nodes) (S2.pure ⟨by simp, fun z hz => ?_, h4, ha4, hkg4⟩) (fun x'' y'' sA5 sB5 hq => ?_)
         · rcases List.mem_append.mp hz with hz | hz
           · exact hm z hz
           · exact hm' z hz
-        · obtain ⟨hy'', hm'', h5, ha5⟩ := hq
+        · obtain ⟨hy'', hm'', h5, ha5, hkg5⟩ := hq
           subst hy''
-          exact closeBlocks_tail h5 ha5 x'' hm'' h.a.opened
+          exact S2.mono (closeBlocks_tail h5 ha5 x'' hm'' h.a.opened (h.a.pk.kg hkg5)) (fun _ _ _ _ hh => ⟨hh.1, by rw [hh.2]; exact hkg5⟩)
 
 /-! ### openBlocks: the loop over the candidate parsers -/
 
@@ -347,13 +380,16 @@ def tpTail2 (q node : Nat) (bp : BP) (state : PState) (lastBlock : Option Block)
   else pure (TryOutcome.done, OpenResult.newBlocksOpened, lastBlock)
 
 theorem tpTail2_sim {src al} {cont : Bool} {k ls p} {sA sB : St} (h : DR src al k ls p sA sB) (q node : Nat) (hn0 : node ≠ 0)
-    (bp : BP) (hal : al bp = true) (state : PState) {lbA lbB : Option Block} (hl : LR al lbA lbB) :
+    (bp : BP) (hal : al bp = true) (state : PState) {lbA lbB : Option Block} (hl : LR al lbA lbB)
+    (hnew : NRn bp node sA.nodes) :
     S2 (fun a b sA' sB' => (TryRel al cont a b ∧ a.2.1 = .newBlocksOpened ∧ b.2.1 = .newBlocksOpened) ∧ DR src al k ls p sA' sB')
       (tpTail2 q node bp state lbA sA) (tpTail2 (q + 1) (node + 1) bp state lbB sB) := by
   unfold tpTail2
-  refine S2.bind (S2.andL (appendChild_s2 h.s q node hn0) (F := fun _ sA' => sA'.pc = sA.pc ∧ UStore sA'.nodes)
-    (fun a sA' e => ⟨appendChild_pck q node sA a sA' e, us_appendChild q node hn0 sA a sA' h.a.u e⟩)) (fun _ _ sA1 sB1 hq => ?_)
-  obtain ⟨h1, hpc1, hu1⟩ := hq
+  refine S2.bind (S2.andL (appendChild_s2 h.s q node hn0)
+    (F := fun _ sA' => sA'.pc = sA.pc ∧ UStore sA'.nodes ∧ KGn sA.nodes sA'.nodes)
+    (fun a sA' e => ⟨appendChild_pck q node sA a sA' e, us_appendChild q node hn0 sA a sA' h.a.u e,
+      kgn_of_keeps (fun n0 => kg_appendChild n0 q node) e⟩)) (fun _ _ sA1 sB1 hq => ?_)
+  obtain ⟨h1, hpc1, hu1, hkg1⟩ := hq
   refine S2.bind (S2.andL (modPc_s2 h1 _ _ (fun a b hab => ?_))
     (F := fun _ sA' => sA' = { sA1 with pc := { sA1.pc with opened := sA1.pc.opened ++ [{ node := node, bp := bp }] } })
     (fun a sA' e => ?_)) (fun _ _ sA2 sB2 hq => ?_)
@@ -364,7 +400,7 @@ theorem tpTail2_sim {src al} {cont : Bool} {k ls p} {sA sB : St} (h : DR src al 
       rw [hpc2]
       simp only
       rw [hpc1]
-      refine ⟨fun z hz => ?_, h.a.tmp, h.a.fence, hu1⟩
+      refine ⟨fun z hz => ?_, h.a.tmp, h.a.fence, hu1, (h.a.pk.kg hkg1).push (hnew.kg hkg1)⟩
       rcases List.mem_append.mp hz with hz | hz
       · exact h.a.opened z hz
       · simp only [List.mem_singleton] at hz; subst hz; exact ⟨hal, hn0⟩
@@ -388,16 +424,20 @@ def tpTail1 (b : Bool) (q node : Nat) (bp : BP) (state : PState) (lastBlock : Op
 
 theorem tpTail1_sim {src al} {cont : Bool} (ps : PS src al) (fr : Frames al) {k ls p} {sA sB : St} (h : DR src al k ls p sA sB)
     (bA bB : Bool) (q node : Nat) (hn0 : node ≠ 0) (bp : BP) (hal : al bp = true) (state : PState)
-    {lbA lbB : Option Block} (hl : LR al lbA lbB) :
+    {lbA lbB : Option Block} (hl : LR al lbA lbB) (hnew : NRn bp node sA.nodes) :
     S2 (fun a b sA' sB' => (TryRel al cont a b ∧ a.2.1 = .newBlocksOpened ∧ b.2.1 = .newBlocksOpened) ∧ DR src al k ls p sA' sB')
       (tpTail1 bA q node bp state lbA sA) (tpTail1 bB (q + 1) (node + 1) bp state lbB sB) := by
   unfold tpTail1
-  refine S2.bind (S2.andL (modNode_s2 h.s node _ _ (fun a b hab => ?_)) (F := fun _ sA' => sA'.pc = sA.pc ∧ UStore sA'.nodes)
+  refine S2.bind (S2.andL (modNode_s2 h.s node _ _ (fun a b hab => ?_))
+    (F := fun _ sA' => sA'.pc = sA.pc ∧ UStore sA'.nodes ∧ KGn sA.nodes sA'.nodes)
     (fun a sA' e => ⟨modNode_pck _ _ sA a sA' e,
-      us_modNode node (fun n => { n with blankPrev := bA }) (fun n hn => ⟨hn.kind, hn.kids⟩) (fun _ _ => rfl) sA a sA' h.a.u e⟩)) (fun _ _ sA1 sB1 hq => ?_)
+      us_modNode node (fun n => { n with blankPrev := bA }) (fun n hn => ⟨hn.kind, hn.kids⟩) (fun _ _ => rfl) sA a sA' h.a.u e,
+      kgn_of_keeps (fun n0 => kgi_modNode n0 node (fun n => { n with blankPrev := bA }) (fun _ => rfl)) e⟩)) (fun _ _ sA1 sB1 hq => ?_)
   · exact { hab with }
-  obtain ⟨h1, hpc1, hu1⟩ := hq
-  have hd1 : DR src al k ls p sA1 sB1 := ⟨h1, by rw [hpc1]; exact ⟨h.a.opened, h.a.tmp, h.a.fence, hu1⟩⟩
+  obtain ⟨h1, hpc1, hu1, hkg1⟩ := hq
+  have hd1 : DR src al k ls p sA1 sB1 :=
+    ⟨h1, by rw [hpc1]; exact ⟨h.a.opened, h.a.tmp, h.a.fence, hu1, h.a.pk.kg hkg1⟩⟩
+  have hnew1 : NRn bp node sA1.nodes := hnew.kg hkg1
   rcases hl.rel with ⟨e1, e2⟩ | ⟨x, e1, e2⟩
   · subst e1 e2
     simp only [Option.map_none, Option.map_some, bqBlock]
@@ -413,7 +453,7 @@ theorem tpTail1_sim {src al} {cont : Bool} (ps : PS src al) (fr : Frames al) {k 
       rw [this]; rfl
     rw [hnone]
     simp only [Bool.false_eq_true, if_false]
-    exact tpTail2_sim hd1 q node hn0 bp hal state hl
+    exact tpTail2_sim hd1 q node hn0 bp hal state hl hnew1
   · subst e1 e2
     obtain ⟨_, hx0⟩ := hl.ok x rfl
     simp only [Option.map_some, shB]
@@ -436,9 +476,9 @@ theorem tpTail1_sim {src al} {cont : Bool} (ps : PS src al) (fr : Frames al) {k 
         rw [hcr.opened]; simp only [List.length_cons, List.length_map]; omega
       rw [elen]
       refine S2.bind (closeBlocks_sim ps fr hd1 _ _) (fun _ _ sA4 sB4 h4 => ?_)
-      exact tpTail2_sim h4 q node hn0 bp hal state hl
+      exact tpTail2_sim h4.1 q node hn0 bp hal state hl (hnew1.kg h4.2)
     · rw [if_neg hcn, if_neg hcn]
-      exact tpTail2_sim hd1 q node hn0 bp hal state hl
+      exact tpTail2_sim hd1 q node hn0 bp hal state hl hnew1
 
 theorem nat_beq_congr {a b c d : Nat} (h : a = b ↔ c = d) : (a == b) = (c == d) := by
   by_cases h1 : a = b
@@ -470,7 +510,7 @@ def tpReqJp (b : Bool) (q node : Nat) (bp : BP) (state : PState) (lastBlock : Op
 theorem tpReqJp_sim {src al} {cont : Bool} (ps : PS src al) (fr : Frames al) {k ls p} {sA sB : St} (h : DR src al k ls p sA sB)
     (bA bB : Bool) (q node : Nat) (hn0 : node ≠ 0) (bp : BP) (hal : al bp = true) (state : PState)
     {lbA lbB : Option Block} (hl : LR al lbA lbB) (blocks : List Block) (hb : blocks ≠ []) (hbo : OKB al blocks)
-    (lb : Block) (hlb : lb.node ≠ 0) :
+    (lb : Block) (hlb : lb.node ≠ 0) (hnew : NRn bp node sA.nodes) (hbpk : PKL blocks sA.nodes) :
     S2 (fun a b sA' sB' => (TryRel al cont a b ∧ a.2.1 = .newBlocksOpened ∧ b.2.1 = .newBlocksOpened) ∧ DR src al k ls p sA' sB')
       (tpReqJp bA q node bp state lbA blocks lb sA)
       (tpReqJp bB (q + 1) (node + 1) bp state lbB (bqBlock :: blocks.map shB) (shB lb) sB) := by
@@ -484,7 +524,9 @@ theorem tpReqJp_sim {src al} {cont : Bool} (ps : PS src al) (fr : Frames al) {k 
     have hd2 : DR src al k ls p sA2 sB2 := by
       refine ⟨h2, ?_⟩
       rw [hpc2]
-      exact ⟨fun z hz => hbo z (List.dropLast_subset _ hz), h.a.tmp, h.a.fence, h.a.u⟩
+      exact ⟨fun z hz => hbo z (List.dropLast_subset _ hz), h.a.tmp, h.a.fence, h.a.u,
+        hbpk.sub (fun z hz => List.dropLast_subset _ hz)⟩
+    have hnew2 : NRn bp node sA2.nodes := by rw [hpc2]; exact hnew
     simp only [shB]
     refine S2.bind (getNode_s2' h2 lb.node) (fun a b sA3 sB3 hq => ?_)
     obtain ⟨hab, e1, e2⟩ := hq
@@ -498,41 +540,43 @@ theorem tpReqJp_sim {src al} {cont : Bool} (ps : PS src al) (fr : Frames al) {k 
     · rw [if_pos hkp, if_pos hkp]
       exact S2.errL (throw_bind_err _ _ _)
     · rw [if_neg hkp, if_neg hkp]
-      exact tpTail1_sim ps fr hd2 bA bB q node hn0 bp hal state hl
+      exact tpTail1_sim ps fr hd2 bA bB q node hn0 bp hal state hl hnew2
 
 theorem tryParsers_sim {src al} (ps : PS src al) (fr : Frames al) (ot : OT src) (bA bB cont : Bool) (w : Int) (q : Nat) :
-    ∀ (bps : List BP), (∀ bp ∈ bps, al bp = true) → ∀ (result resultB : OpenResult) (lbA lbB : Option Block)
+    ∀ (bps : List BP), (∀ bp ∈ bps, al bp = true ∨ bp.notList = false) → ∀ (result resultB : OpenResult) (lbA lbB : Option Block)
       {k ls p : Nat} {sA sB : St}, DR src al k ls p sA sB → LRw al lbA lbB → RRes cont result resultB →
+      HC cont result lbA sA →
       S2 (fun a b sA' sB' => TryRel al cont a b ∧ (resultB = result → b.2.1 = a.2.1) ∧ (∃ p', DR src al k ls p' sA' sB') ∧
-          TPU src ls p cont w bps result a.2.1)
+          TPU src ls p cont w bps result a.2.1 ∧ HC cont a.2.1 a.2.2 sA')
         (tryParsers q bA cont w bps result lbA sA) (tryParsers (q + 1) bB cont w bps resultB lbB sB) := by
   intro bps
   induction bps with
   | nil =>
-    intro _ result resultB lbA lbB k ls p sA sB h hl hres
+    intro _ result resultB lbA lbB k ls p sA sB h hl hres hcl
     unfold tryParsers
-    refine S2.pure ⟨⟨trivial, hres, hl, fun hh => absurd rfl hh⟩, fun e => e, ⟨p, h⟩, .inl rfl, ?_⟩
+    refine S2.pure ⟨⟨trivial, hres, hl, fun hh => absurd rfl hh⟩, fun e => e, ⟨p, h⟩, ⟨.inl rfl, ?_⟩, hcl⟩
     intro _ _ _ h1 h2
     by_cases hw : w ≤ 3
     · exact absurd (h1 hw) (by simp)
     · exact absurd (h2 (by omega)).1 (by simp)
   | cons bp bps ih =>
-    intro hbps result resultB lbA lbB k ls p sA sB h hl hres
-    have hal : al bp = true := hbps bp (by simp)
+    intro hbps result resultB lbA lbB k ls p sA sB h hl hres hcl
     have ih' := ih (fun b hb => hbps b (by simp [hb]))
     unfold tryParsers
     rw [hres.cond]
     by_cases hs1 : (cont && result == OpenResult.noBlocksOpened && !bp.canInterruptParagraph) = true
     · rw [if_pos hs1, if_pos hs1]
-      refine S2.mono (ih' result resultB lbA lbB h hl hres) (fun _ _ _ _ hh => ⟨hh.1, hh.2.1, hh.2.2.1, hh.2.2.2.1, ?_⟩)
+      refine S2.mono (ih' result resultB lbA lbB h hl hres hcl)
+        (fun _ _ _ _ hh => ⟨hh.1, hh.2.1, hh.2.2.1, ⟨hh.2.2.2.1.1, ?_⟩, hh.2.2.2.2⟩)
       intro hc; rw [hc] at hs1; simp at hs1
     rw [if_neg hs1, if_neg hs1]
     by_cases hs2 : (decide (w > 3) && !bp.canAcceptIndentedLine) = true
     · rw [if_pos hs2, if_pos hs2]
-      refine S2.mono (ih' result resultB lbA lbB h hl hres) (fun _ _ _ _ hh => ⟨hh.1, hh.2.1, hh.2.2.1, hh.2.2.2.1, ?_⟩)
+      refine S2.mono (ih' result resultB lbA lbB h hl hres hcl)
+        (fun _ _ _ _ hh => ⟨hh.1, hh.2.1, hh.2.2.1, ⟨hh.2.2.2.1.1, ?_⟩, hh.2.2.2.2⟩)
       intro hc hr hnb h1 h2
       simp only [Bool.and_eq_true, decide_eq_true_eq, Bool.not_eq_true'] at hs2
-      refine hh.2.2.2.2 hc hr hnb (fun hw => by omega) (fun hw => ?_)
+      refine hh.2.2.2.1.2 hc hr hnb (fun hw => by omega) (fun hw => ?_)
       obtain ⟨hm, hlo⟩ := h2 hw
       refine ⟨?_, hlo⟩
       rcases List.mem_cons.mp hm with e | e
@@ -543,20 +587,36 @@ theorem tryParsers_sim {src al} (ps : PS src al) (fr : Frames al) (ot : OT src) 
     obtain ⟨hlr, hlA, e1, e2⟩ := hq
     rw [e1, e2]
     have hl' : LR al lA lB := ⟨hlr, fun x hx => h.a.opened x (List.mem_of_getLast? (hlA ▸ hx))⟩
-    refine S2.bind (S2.andL (ps.open_ bp hal k ls p q sA sB h.s)
-      (F := fun a sA' => AInv al sA'.pc sA'.nodes ∧ (a.2.requirePara = true → sA.pc.opened.getLast? ≠ none) ∧
+    have hopen : S2 (fun a b sA' sB' => (OpenRel a b ∧ ∃ p', p ≤ p' ∧ SR src k ls p' sA' sB') ∧
+        (AInv al sA'.pc sA'.nodes ∧ (a.2.requirePara = true → sA.pc.opened.getLast? ≠ none) ∧
         (a.1 = none → sA'.r.pos = sA.r.pos) ∧
         (NBV src ls p → (bp = .paragraph → a.1 ≠ none) ∧
-          (bp = .code → (∃ lo : Int, 3 < (indentWidthI ((viewA src ls p).getD []) lo).1) → a.1 ≠ none)))
-      (fun a sA' e => ⟨fr.open_ _ _ _ _ _ e hal h.a, fr.req _ _ _ _ _ e, fr.nonePos _ _ _ _ _ e, fun hnb =>
-        ⟨fun hbp => by subst hbp; exact ot.para k ls p q sA sB a sA' h.s hnb e,
-         fun hbp hlo => by subst hbp; obtain ⟨lo, hlo⟩ := hlo; exact ot.code k ls p q sA sB a sA' lo h.s hnb hlo e⟩⟩))
-      (fun a b sA2 sB2 hq => ?_)
-    obtain ⟨⟨⟨hst, hnode⟩, p', _, h2⟩, ha2, hreq, hnp, hopens⟩ := hq
+          (bp = .code → (∃ lo : Int, 3 < (indentWidthI ((viewA src ls p).getD []) lo).1) → a.1 ≠ none)) ∧
+        (∀ id, a.1 = some id → NRn bp id sA'.nodes) ∧ KGn sA.nodes sA'.nodes ∧ sA'.pc.opened = sA.pc.opened ∧
+        (a.1 ≠ none → al bp = true)))
+        (bpOpen bp q sA) (bpOpen bp (q + 1) sB) := by
+      rcases hbps bp (by simp) with hal | hnl
+      · exact S2.andL (ps.open_ bp hal k ls p q sA sB h.s)
+          (fun a sA' e => ⟨fr.open_ _ _ _ _ _ e hal h.a, fr.req _ _ _ _ _ e, fr.nonePos _ _ _ _ _ e, (fun hnb =>
+            ⟨fun hbp => by subst hbp; exact ot.para k ls p q sA sB a sA' h.s hnb e,
+             fun hbp hlo => by subst hbp; obtain ⟨lo, hlo⟩ := hlo; exact ot.code k ls p q sA sB a sA' lo h.s hnb hlo e⟩),
+            (fun id hid => fr.openNR _ _ _ _ _ id e hid hal), fr.openKG _ _ _ _ _ e hal, bpOpen_opened _ _ _ _ _ e,
+            fun _ => hal⟩)
+      · refine S2.andL (ot.lsim bp hnl k ls p q sA sB h.s) (fun a sA' e => ?_)
+        obtain ⟨hn1, hn2⟩ := ot.ldecl bp hnl k ls p q sA sB a sA' h.s h.a.u e
+        have ho := bpOpen_opened _ _ _ _ _ e
+        refine ⟨⟨by rw [ho]; exact h.a.opened, bpOpen_tmp bp q sA sA' a e (fun b hb => (h.a.opened b hb).2) h.a.tmp,
+          bpOpen_fence bp q sA sA' a e h.a.fence, by rw [hn2]; exact h.a.u, by rw [ho, hn2]; exact h.a.pk⟩,
+          fr.req _ _ _ _ _ e, fr.nonePos _ _ _ _ _ e,
+          (fun _ => ⟨(fun hbp => by subst hbp; cases hnl), (fun hbp _ => by subst hbp; cases hnl)⟩),
+          (fun id hid => by rw [hn1] at hid; cases hid),
+          KGn.of_eq hn2, ho, (fun hne => absurd hn1 hne)⟩
+    refine S2.bind hopen (fun a b sA2 sB2 hq => ?_)
+    obtain ⟨⟨⟨hst, hnode⟩, p', _, h2⟩, ha2, hreq, hnp, hopens, hnrall, hkgo, hopo, hsomeal⟩ := hq
     have hd2 : DR src al k ls p' sA2 sB2 := ⟨h2, ha2⟩
     obtain ⟨nodeA, stA⟩ := a
     obtain ⟨nodeB, stB⟩ := b
-    simp only at hst hnode hreq hnp hopens ⊢
+    simp only at hst hnode hreq hnp hopens hnrall hsomeal ⊢
     subst hst
     rcases hnode with ⟨e1, e2⟩ | ⟨n, hn0, e1, e2⟩
     · subst e1 e2
@@ -568,10 +628,16 @@ theorem tryParsers_sim {src al} (ps : PS src al) (fr : Frames al) (ot : OT src) 
         simp only at e3
         omega
       subst hpp
-      refine S2.mono (ih' result resultB lA lB hd2 (.inr hl') hres) (fun _ _ _ _ hh => ⟨hh.1, hh.2.1, hh.2.2.1, hh.2.2.2.1, ?_⟩)
+      have hcl2 : HC cont result lA sA2 := by
+        intro hc hr
+        obtain ⟨e1, e2⟩ := hcl hc hr
+        rw [hopo]
+        exact ⟨hlA, fun x hx => e2 x (by rw [e1, ← hlA]; exact hx)⟩
+      refine S2.mono (ih' result resultB lA lB hd2 (.inr hl') hres hcl2)
+        (fun _ _ _ _ hh => ⟨hh.1, hh.2.1, hh.2.2.1, ⟨hh.2.2.2.1.1, ?_⟩, hh.2.2.2.2⟩)
       intro hc hr hnb h1 h2'
       obtain ⟨ho1, ho2⟩ := hopens hnb
-      refine hh.2.2.2.2 hc hr hnb (fun hw => ?_) (fun hw => ?_)
+      refine hh.2.2.2.1.2 hc hr hnb (fun hw => ?_) (fun hw => ?_)
       · rcases List.mem_cons.mp (h1 hw) with e | e
         · exact absurd rfl (ho1 e.symm)
         · exact e
@@ -582,8 +648,10 @@ theorem tryParsers_sim {src al} (ps : PS src al) (fr : Frames al) (ot : OT src) 
         · exact e
     · subst e1 e2
       simp only
+      have hal : al bp = true := hsomeal (by simp)
       have hfin : ∀ r : OpenResult, r = .newBlocksOpened → TPU src ls p cont w (bp :: bps) result r :=
         fun r hr => ⟨.inr hr, fun _ _ _ _ _ => hr⟩
+      have hnew2 : NRn bp n sA2.nodes := hnrall n rfl
       by_cases hrq : stB.requirePara = true
       · rw [if_pos hrq, if_pos hrq]
         have hsome := hreq hrq
@@ -604,9 +672,11 @@ theorem tryParsers_sim {src al} (ps : PS src al) (fr : Frames al) (ot : OT src) 
         by_cases hc : (Option.map (fun x => x.node) (some x) == na.children.getLast?) = true
         · rw [if_pos hc, if_pos hc]
           simp only [shB]
-          refine S2.bind (S2.andL (ps.close x.bp halx k ls p' x.node sA2 sB2 h2 hx0 ha2)
-            (F := fun _ sA' => AInv al sA'.pc sA'.nodes) (fun _ sA' e => fr.close _ _ _ _ _ e halx hx0 ha2)) (fun _ _ sA4 sB4 hq => ?_)
-          obtain ⟨h4, ha4⟩ := hq
+          refine S2.bind (S2.andL (ps.close x.bp halx k ls p' x.node sA2 sB2 h2 hx0 ha2
+              (fun hbp => (h.a.pk.kg hkgo).nr (List.mem_of_getLast? (hlA ▸ rfl)) hbp))
+            (F := fun _ sA' => AInv al sA'.pc sA'.nodes ∧ KGn sA2.nodes sA'.nodes)
+            (fun _ sA' e => ⟨fr.close _ _ _ _ _ e halx hx0 ha2, fr.closeKG _ _ _ _ _ e halx⟩)) (fun _ _ sA4 sB4 hq => ?_)
+          obtain ⟨h4, ha4, hkg4⟩ := hq
           refine S2.bind (getPc_s2 h4) (fun pa pb sA5 sB5 hq => ?_)
           obtain ⟨ea, eb, hcr, e1, e2⟩ := hq
           subst ea eb
@@ -621,14 +691,15 @@ theorem tryParsers_sim {src al} (ps : PS src al) (fr : Frames al) (ot : OT src) 
             simp only [Bool.false_eq_true, if_false]
             have hne : sA4.pc.opened ≠ [] := by
               intro e; apply hlen; rw [e]; rfl
-            exact S2.mono (tpReqJp_sim ps fr ⟨h4, ha4⟩ bA bB q n hn0 bp hal stB hl' sA4.pc.opened hne ha4.opened x hx0)
-              (fun _ _ _ _ hh => ⟨hh.1.1, fun _ => by rw [hh.1.2.1, hh.1.2.2], ⟨p', hh.2⟩, hfin _ hh.1.2.1⟩)
+            exact S2.mono (tpReqJp_sim ps fr ⟨h4, ha4⟩ bA bB q n hn0 bp hal stB hl' sA4.pc.opened hne ha4.opened x hx0
+                (hnew2.kg hkg4) ha4.pk)
+              (fun _ _ _ _ hh => ⟨hh.1.1, fun _ => by rw [hh.1.2.1, hh.1.2.2], ⟨p', hh.2⟩, hfin _ hh.1.2.1, HC.of_new hh.1.2.1⟩)
         · rw [if_neg hc, if_neg hc]
-          exact S2.mono (tpTail1_sim ps fr hd2 bA bB q n hn0 bp hal stB hl')
-            (fun _ _ _ _ hh => ⟨hh.1.1, fun _ => by rw [hh.1.2.1, hh.1.2.2], ⟨p', hh.2⟩, hfin _ hh.1.2.1⟩)
+          exact S2.mono (tpTail1_sim ps fr hd2 bA bB q n hn0 bp hal stB hl' hnew2)
+            (fun _ _ _ _ hh => ⟨hh.1.1, fun _ => by rw [hh.1.2.1, hh.1.2.2], ⟨p', hh.2⟩, hfin _ hh.1.2.1, HC.of_new hh.1.2.1⟩)
       · rw [if_neg hrq, if_neg hrq]
-        exact S2.mono (tpTail1_sim ps fr hd2 bA bB q n hn0 bp hal stB hl')
-          (fun _ _ _ _ hh => ⟨hh.1.1, fun _ => by rw [hh.1.2.1, hh.1.2.2], ⟨p', hh.2⟩, hfin _ hh.1.2.1⟩)
+        exact S2.mono (tpTail1_sim ps fr hd2 bA bB q n hn0 bp hal stB hl' hnew2)
+          (fun _ _ _ _ hh => ⟨hh.1.1, fun _ => by rw [hh.1.2.1, hh.1.2.2], ⟨p', hh.2⟩, hfin _ hh.1.2.1, HC.of_new hh.1.2.1⟩)
 
 /-! ### the relation with `BlockOffset` / `BlockIndent` left open (they are rewritten by every retry of openBlocks
     before anything reads them) -/
@@ -695,9 +766,10 @@ theorem modPc_l {src al k ls p} {sA sB : St} (h : DRL src al k ls p sA sB) (fA f
 
 /-! ### toContinuable -/
 
-theorem toContinuable_sim {src al} (ps : PS src al) (fr : Frames al) (ns : NS src) (cont : Bool)
+theorem toContinuable_sim {src al} (fr : Frames al) (cont : Bool)
     (result resultB : OpenResult) (hres : RRes cont result resultB)
-    {lbA lbB : Option Block} (hlw : LRw al lbA lbB) {k ls p} {sA sB : St} (h : DR src al k ls p sA sB) :
+    {lbA lbB : Option Block} (hlw : LRw al lbA lbB) {k ls p} {sA sB : St} (h : DR src al k ls p sA sB)
+    (hcl : HC cont result lbA sA) :
     S2 (fun a b sA' sB' => RRes cont a b ∧ (resultB = result → b = a) ∧ ∃ p', DR src al k ls p' sA' sB')
       (toContinuable cont result lbA sA) (toContinuable cont resultB lbB sB) := by
   unfold toContinuable
@@ -706,6 +778,8 @@ theorem toContinuable_sim {src al} (ps : PS src al) (fr : Frames al) (ns : NS sr
   · rw [if_pos hc, if_pos hc]
     have hcont : cont = true := by
       simp only [Bool.and_eq_true] at hc; exact hc.2
+    have hrno : result = .noBlocksOpened := by
+      simp only [Bool.and_eq_true, beq_iff_eq] at hc; exact hc.1
     have hreq : resultB = result := by
       rcases hres with e | ⟨e, _⟩
       · exact e
@@ -718,11 +792,14 @@ theorem toContinuable_sim {src al} (ps : PS src al) (fr : Frames al) (ns : NS sr
       exact S2.errL (throw_bind_err _ _ _)
     · subst e1 e2
       obtain ⟨hal, hx0⟩ := hl.ok x rfl
+      -- the last opened block is a paragraph block: `paragraphParser.Continue`, whatever is left of the line
+      have hbp : x.bp = .paragraph := (hcl hcont hrno).2 x rfl
       simp only [shB]
-      obtain ⟨hp, hnsp⟩ := ns k ls p h.s.r.inl
-      refine S2.bind (S2.andL (ps.cont x.bp hal k ls p x.node sA sB h.s hx0 h.a hp hnsp)
-        (F := fun _ sA' => AInv al sA'.pc sA'.nodes) (fun _ sA' e => fr.cont _ _ _ _ _ e hal hx0 h.a)) (fun a b sA1 sB1 hq => ?_)
-      obtain ⟨⟨hab, p', h1⟩, ha1⟩ := hq
+      rw [hbp]
+      refine S2.bind (S2.andL (paragraphContinue_sim src k ls p x.node sA sB h.s)
+        (F := fun _ sA' => AInv al sA'.pc sA'.nodes)
+        (fun _ sA' e => fr.cont .paragraph x.node sA _ sA' e (hbp ▸ hal) hx0 h.a)) (fun a b sA1 sB1 hq => ?_)
+      obtain ⟨⟨hab, p', _, h1⟩, ha1⟩ := hq
       rw [hab]
       by_cases hcc : a.cont = true
       · rw [if_pos hcc, if_pos hcc]; exact S2.pure ⟨.inl rfl, fun _ => rfl, p', h1, ha1⟩
